@@ -86,3 +86,9 @@ Example dedupe_ex :
   keep_last decl_eqb [mkDecl 1 1 true 0; mkDecl 1 2 false 0; mkDecl 1 1 false 0; mkDecl 1 1 true 0; mkDecl 1 2 false 0]
   = [mkDecl 1 1 false 0; mkDecl 1 1 true 0; mkDecl 1 2 false 0].
 Proof. vm_compute. reflexivity. Qed.
+
+(* layer collapsing on the model, and a sheet where the tree theorem's pieces all fire *)
+Example collapse_ex :
+  mangle_sheet [RLayer [[1]] 0 [RLayer [[2]] 0 [RSel [sa] [dred]]]; RLayer [[3]] 0 []; RLayer [[1;2]] 0 [RSel [sa; sa] [dblue; dblue]]]
+  = [RLayer [[1; 2]] 0 [RSel [sa] [dred]]; RLayer [[3]] 0 []; RLayer [[1; 2]] 0 [RSel [sa] [dblue]]].
+Proof. vm_compute. reflexivity. Qed.
